@@ -213,7 +213,7 @@ fn parse_args() -> Result<Opt, pico_args::Error> {
         },
         join,
         json: has_json,
-        fixed_memory: fixed_memory_kb.map(|x| x * 1024),
+        fixed_memory: fixed_memory_kb.map(|x| x.saturating_mul(1024)),
         delimiter,
         bounds_type,
         bounds,
